@@ -158,6 +158,10 @@ def check(tier):
     ck.add("queue-add", "harness.C20", "add_job", dict(cases=adds))
     # a queue handed from one simulation to the next: re-timing keeps every pending delivery at its distance
     ck.add("queue-retime", "harness.C20", "retime_job", dict(cases=[(R, C, s_) for R in (1, 2) for C in (2, 3) for s_ in range(C)]))
+    # the delayed stoichiometry itself: what a firing queues is the reaction's delayed products minus its delayed reactants, with multiplicity
+    dcs = [(lr, lp, ldr, ldp, o, "massaction") for (lr, lp, ldr, ldp) in ((1, 0, 0, 1), (1, 0, 0, 2), (1, 1, 1, 1), (0, 1, 1, 2), (1, 0, 2, 1))
+           for o in ((0, 1, 2), (2, 0, 1))]
+    ck.add("delayed-stoichiometry", "harness.C03", "stoich_job", dict(cases=dcs), max_paths=100000)
     from . import C05
     for cse in C05.cases("quick")[:3]:
         ck.add("ssa-init/S%dR%dT%d/ci%d" % cse, "harness.C05", "step_job", dict(cases=[cse], facets=["init", "feasible", "model-untouched"]))
